@@ -135,7 +135,13 @@ ReadNumber(src, c) ==
   ELSE IF Cur(src, c) = 48 /\ pk \in {111, 79} THEN PrefixedNumber(src, c, OctSet)
   ELSE
     LET c1   == ScanWhile(src, c, DigitSet)
-        frac == Cur(src, c1) = 46 /\ IsDigit(Peek(src, c1))
+        \* exponentAt: e/E, optional sign, a digit, directly behind the dot (`1.e3` is one number)
+        c1a  == Adv(src, c1)
+        c1b  == Adv(src, c1a)
+        expo == /\ Cur(src, c1a) \in {101, 69}
+                /\ \/ IsDigit(Cur(src, c1b))
+                   \/ Cur(src, c1b) \in {43, 45} /\ IsDigit(Peek(src, c1b))
+        frac == Cur(src, c1) = 46 /\ (IsDigit(Peek(src, c1)) \/ expo)
         c2   == IF frac THEN ScanWhile(src, Adv(src, c1), DigitSet) ELSE c1
         ty2  == IF frac THEN "FLOAT" ELSE "INT"
     IN IF Cur(src, c2) \in {101, 69} THEN
